@@ -47,15 +47,23 @@ func TestMain(m *testing.M) {
 
 const reallocMsg = "attempt to reallocate Env.Ints[]"
 
-// known classifies a disagreement as one of the registered findings.
+// known classifies a disagreement as one of the registered findings (consulted only
+// while they are listed with status "known").
 func known(p gobatch.Program, got, want gobatch.Result) string {
-	if want.Err != "" || want.Panic != "" || !strings.Contains(got.Err, reallocMsg) {
+	if want.Err != "" || want.Panic != "" {
+		return ""
+	}
+	if strings.Contains(got.Err, "unsupported expression type") && strings.Contains(got.Err, "*complex128") {
+		return "F-C14-3" // normally avoided by construction
+	}
+	if !strings.Contains(got.Err, reallocMsg) {
 		return ""
 	}
 	if p.HasTag("multi-decl-input-right-after-slot-addr") {
 		return "F-C14-1"
 	}
-	if p.HasTag("complex128-declared-after-int-addr") && strings.Contains(got.Err, "complex128") {
+	if p.HasTag("complex128-declared-after-int-addr") &&
+		(p.Meta["mode"] == "reader" || strings.Contains(got.Err, "complex128")) {
 		return "F-C14-2"
 	}
 	return ""
@@ -64,7 +72,7 @@ func known(p gobatch.Program, got, want gobatch.Result) string {
 func config() gobatch.Config {
 	registerRec()
 	return gobatch.Config{
-		Rec: vrec, Name: "c14", N: vrec.Scale(90, 500),
+		Rec: vrec, Name: "c14", N: vrec.Scale(70, 450),
 		Gen: Generate, Known: known, Interp: runHistory, OracleOf: oracleOf,
 	}
 }
